@@ -157,3 +157,49 @@ def mutate(rng, b):
     else:             # random byte
         b[i] = rng.getrandbits(8)
     return bytes(b)
+
+
+def edge_fields(rng, proto):
+    """a message assembled field by field with the LENGTH-CARRYING fields (extended token length, TCP Len extension, option
+    delta / length extensions) at the edges of their ranges — also where the value the field announces is far larger than
+    what follows (an implementation that narrows such a value sees a small, plausible number instead)"""
+    tkl = rng.choice([13, 14, 14, 14, rng.randint(0, 15)])
+    ext = b""
+    if tkl == 13:
+        ext = bytes([rng.choice([0, 1, 2, 0xFE, 0xFF, rng.getrandbits(8)])])
+    elif tkl == 14:
+        ext = rng.choice([b"\x00\x00", b"\x00\x01", b"\xfe\xf2", b"\xfe\xf3", b"\xfe\xf4", b"\xff\xff", b"\x00\xff", b"\x01\x00",
+                          b"\xfe\xff", b"\xff\x00", rbytes(rng, 2)])
+    c = rng.random()
+    if c < 0.5:
+        rest = rbytes(rng, rng.choice([0, 0, 1, 2, 3, 8, 13, 14]))
+    elif c < 0.7:
+        # exactly (or nearly) the token the fields announce, when that is affordable, then a little more
+        want = (13 + ext[0]) if tkl == 13 else (269 + (ext[0] << 8 | ext[1])) if tkl == 14 else tkl if tkl < 13 else 0
+        want = want if want <= 2000 else rng.choice([0, 1, 300])
+        rest = rbytes(rng, max(0, want + rng.choice([0, 0, -1, 1, 2])))
+    else:
+        # an option whose delta / length extensions sit on their edges
+        d, l = rng.choice([13, 14, 15, rng.randint(0, 12)]), rng.choice([13, 14, 15, rng.randint(0, 12)])
+        o = bytes([d << 4 | l])
+        for nib in (d, l):
+            if nib == 13: o += bytes([rng.choice([0, 0xFF, rng.getrandbits(8)])])
+            elif nib == 14: o += rng.choice([b"\x00\x00", b"\xfe\xf2", b"\xfe\xf3", b"\xff\xff", rbytes(rng, 2)])
+        want = tkl if tkl < 13 else 0
+        rest = rbytes(rng, want) + o + rbytes(rng, rng.choice([0, 1, 2, 13, 14, 269]))
+    code = rng.choice([0, 1, 2, 69, 0, rng.getrandbits(8)])
+    if proto == "udp":
+        return bytes([0x40 | rng.randint(0, 3) << 4 | tkl, code]) + rbytes(rng, 2) + ext + rest
+    if proto == "ws":
+        return bytes([rng.choice([0, 0, 0, 13, 14, 15, 1]) << 4 | tkl, code]) + ext + rest
+    n = len(rest)           # RFC 8323: Len counts options + payload, i.e. what follows the token
+    tok_len = (13 + ext[0]) if tkl == 13 else (269 + (ext[0] << 8 | ext[1])) if tkl == 14 else tkl if tkl < 13 else 0
+    n = max(0, n - tok_len) if rng.random() < 0.7 else n
+    n = rng.choice([n, n, n, 0, 12, 13, 268, 269, 65804, 65805])
+    if n < 13: h = bytes([n << 4 | tkl])
+    elif n < 269: h = bytes([13 << 4 | tkl, n - 13])
+    elif n < 65805: h = bytes([14 << 4 | tkl, (n - 269) >> 8, (n - 269) & 0xFF])
+    else: h = bytes([15 << 4 | tkl]) + (n - 65805).to_bytes(4, "big")
+    if rng.random() < 0.1:
+        h = bytes([rng.choice([13, 14, 15]) << 4 | tkl]) + rng.choice([b"", b"\xff", b"\xff\xff", b"\xff\xff\xff\xff", b"\xff\xfe\xfe\xf3"])
+    return h + bytes([code]) + ext + rest
